@@ -92,15 +92,19 @@ def splitComma : Str → List Str
       | [] => [[c]]
       | l :: ls => (c :: l) :: ls
 
+/-- `(schema, name)` of a type text: `self.type.count('.') == 1` -/
+def typeKey (ty : Str) : Str × Str :=
+  match splitDot ty with
+  | [s, n] => (s, n)
+  | _ => (PyDBML.lit "public", ty)
+
 /-- `ColumnBlueprint.build`: type resolution against the enums already in the database -/
-def resolveType (enums : List Enum) (ty : Str) : B ColType := do
-  let sn : Str × Str ←
-    match splitDot ty with
-      | [s, n] => pure (s, n)                   -- `self.type.count('.') == 1`
-      | _ => pure (PyDBML.lit "public", ty)
-  match enums.findIdx? (fun e => e.schema == sn.1 && e.name == sn.2) with
-  | some i => pure (.enum i)
-  | none => pure (.plain ty)
+def resolveTypePure (enums : List Enum) (ty : Str) : ColType :=
+  match enums.findIdx? (fun e => e.schema == (typeKey ty).1 && e.name == (typeKey ty).2) with
+  | some i => .enum i
+  | none => .plain ty
+
+def resolveType (enums : List Enum) (ty : Str) : B ColType := pure (resolveTypePure enums ty)
 
 def buildColumn (enums : List Enum) (c : ColBp) : B Column := do
   let d ← buildDefault c.default
@@ -193,19 +197,21 @@ def refEq (db : Db) (a b : Ref) : Bool :=
     && (a.col1.zip b.col1).all (fun (x, y) => Dbml.colEq db a.t1 x b.t1 y)
     && (a.col2.zip b.col2).all (fun (x, y) => Dbml.colEq db a.t2 x b.t2 y)
 
+/-- the columns named by `cols` in the table at position `i` -/
+def colsAt (tables : List Table) (i : Nat) (cols : Str) : B (List Nat) :=
+  match tables[i]? with
+  | some t => locateCols t cols
+  | none => throw (.outOfModel "table position")
+
 def buildRef (db : Db) (r : RefBp) : B Ref := do
   let some tn1 := r.table1 | throw (.lib "TableNotFoundError")
   let some tn2 := r.table2 | throw (.lib "TableNotFoundError")
   let some cn1 := r.col1 | throw (.lib "ColumnNotFoundError")
   let some cn2 := r.col2 | throw (.lib "ColumnNotFoundError")
   let t1 ← locateTable db.tables r.schema1 tn1
-  let c1 ← match db.tables[t1]? with
-    | some t => locateCols t cn1
-    | none => throw (.outOfModel "table position")
+  let c1 ← colsAt db.tables t1 cn1
   let t2 ← locateTable db.tables r.schema2 tn2
-  let c2 ← match db.tables[t2]? with
-    | some t => locateCols t cn2
-    | none => throw (.outOfModel "table position")
+  let c2 ← colsAt db.tables t2 cn2
   pure { kind := r.kind, t1 := t1, col1 := c1, t2 := t2, col2 := c2,
          name := match r.name with | some [] => none | x => x,
          comment := r.comment, onUpdate := r.onUpdate, onDelete := r.onDelete, inlineFlag := r.inline }
